@@ -200,12 +200,32 @@ pub fn live_mappings(workdir: &str, tr: &mut Trace) {
     let fixed = format!("{workdir}/fixed_{}.elf", std::process::id());
     let img = elfgen::build(&Spec { vshift: 0x40_0000, soname: None, id_ph: (50..70).collect(), ..Default::default() });
     let _ = std::fs::write(&fixed, &img.bytes);
-    let Ok(t) = TargetProc::spawn(&json!({"threads": [], "file_maps": [{"path": fixed, "off": 0, "len": img.bytes.len(), "exec": true, "fixed": 0x40_0000}]}), workdir, "elf") else { return };
+    // and an image with a SONAME mapped as it stands at an address of the kernel's choice: nothing relocates its dynamic
+    // section, DT_STRTAB stays a (small) link-time address, as under loaders that do not rewrite it (and in the vDSO)
+    let raw = format!("{workdir}/rawmapped_{}.elf", std::process::id());
+    let img2 = elfgen::build(&Spec { soname: Some("librawmapped.so.4".into()), id_ph: (90..110).collect(), ..Default::default() });
+    let _ = std::fs::write(&raw, &img2.bytes);
+    let Ok(t) = TargetProc::spawn(&json!({"threads": [], "file_maps": [{"path": fixed, "off": 0, "len": img.bytes.len(), "exec": true, "fixed": 0x40_0000},
+                                                                       {"path": raw, "off": 0, "len": img2.bytes.len(), "exec": true}]}), workdir, "elf") else { return };
     let Ok(mut d) = PtraceDumper::new_report_soft_errors(t.pid, std::time::Duration::from_secs(2), Default::default(), error_graph::strategy::DontCare) else { return };
     d.suspend_threads(error_graph::strategy::DontCare);
     for m in d.mappings.clone() {
         if too_many_hangs() { break; }
         let Some(name) = m.name.as_ref().map(|n| n.to_string_lossy().into_owned()) else { continue };
+        // the vDSO has no file: its image is read out of the target and given to the readers as a byte slice
+        if name == "[vdso]" || name == "linux-gate.so" {
+            let Some(bytes) = crate::target::read_mem(t.pid, m.start_address as u64, m.size) else { continue };
+            let mem_id = std::panic::catch_unwind(|| PtraceDumper::from_process_memory_for_mapping::<BuildId>(&m, t.pid)).map(|r| r.map(|b| hexs(&b.0)).ok());
+            let mem_so = std::panic::catch_unwind(|| PtraceDumper::from_process_memory_for_mapping::<SoName>(&m, t.pid)).map(|r| r.map(|s| s.0).ok());
+            let panicked = mem_id.is_err() || mem_so.is_err();
+            let (mem_id, mem_so) = (mem_id.ok().flatten(), mem_so.ok().flatten());
+            let (b, s) = run_readers(&bytes);
+            let sl_id = b["hex"].as_str().map(|x| x.to_string());
+            let sl_so = s["hex"].as_str().map(|h| String::from_utf8_lossy(&(0..h.len() / 2).map(|i| u8::from_str_radix(&h[2 * i..2 * i + 2], 16).unwrap_or(0)).collect::<Vec<u8>>()).into_owned());
+            tr.emit(json!({"ev":"live","path":"[vdso]","panic": panicked || b["res"] == "panic" || s["res"] == "panic",
+                           "memId": mem_id.clone(), "fileId": sl_id.clone(), "idSame": mem_id == sl_id, "soSame": mem_so == sl_so}));
+            continue;
+        }
         if !name.starts_with('/') || m.offset != 0 || !std::path::Path::new(&name).exists() { continue; }
         let mem = std::panic::catch_unwind(|| PtraceDumper::from_process_memory_for_mapping::<BuildId>(&m, t.pid));
         let file = std::panic::catch_unwind(|| BuildId::read_from_file(std::path::Path::new(&name)));
@@ -218,4 +238,5 @@ pub fn live_mappings(workdir: &str, tr: &mut Trace) {
     }
     d.resume_threads(error_graph::strategy::DontCare);
     let _ = std::fs::remove_file(&fixed);
+    let _ = std::fs::remove_file(&raw);
 }
